@@ -189,3 +189,11 @@ Theorem C20_source_effects :
   (forall q e k f cc, peq (src_background_revalidate q e k f cc) (background_revalidate q e k f cc)).
 Proof. repeat split; [exact tie_handle_cache_hit|exact tie_background_revalidate]. Qed.
 Print Assumptions C20_source_effects.
+
+(* ... and StoreResponse (hop-by-hop fields removed first, the variant key, the entry written before the index, the index
+   entry appended or replaced), serveFromCache and handleStaleWhileRevalidate (qualified no-cache fields removed, Age, status,
+   the background revalidation started with the stored validators) *)
+Theorem C20_source_effects2 :
+  (forall q e k f cc now ql, peq (src_handle_stale_while_revalidate q e k f cc now ql) (handle_stale_while_revalidate q e k f cc now ql)).
+Proof. exact tie_handle_stale_while_revalidate. Qed.
+Print Assumptions C20_source_effects2.
